@@ -17,6 +17,9 @@ CONSTANTS Classes,     \* subset of {"cbc10", "tls12", "tls13"}
           KsSizes,     \* GetOutKeystream lengths
           KsSides,     \* sides that have GetOutKeystream (only the UConn, i.e. "c")
           MaxOps, MaxW, MaxKU, MaxMut, MaxClose, MaxKs,
+          BurstSizes,  \* k: "k key updates in a row from one side" as ONE step (TLS 1.3; {} = off)
+          UploadRounds, UploadSizes, \* k, n: "k times (write n bytes; the receiver sends a KeyUpdate)" as ONE step
+          MaxBurst,    \* how many such macro steps per scenario
           Paths        \* TRUE: the history is part of the state (every path is a scenario)
 
 VARIABLES st, hist, cnt, class
@@ -28,7 +31,7 @@ Init ==
   /\ st = IF class = "nil" THEN InitForged(ClassProfile("tls12"), FALSE)
           ELSE IF Forged THEN InitForged(ClassProfile(class), TRUE) ELSE InitLive(ClassProfile(class))
   /\ hist = <<>>
-  /\ cnt = [w |-> 0, ku |-> 0, mut |-> 0, cl |-> 0, ks |-> 0]
+  /\ cnt = [w |-> 0, ku |-> 0, mut |-> 0, cl |-> 0, ks |-> 0, b |-> 0]
 
 \* (\E r \in {e} : ... evaluates e once; TLC re-evaluates a LET definition at every use)
 Step(r, h, c) == r.ok /\ st' = r.s /\ hist' = Append(hist, h) /\ cnt' = c /\ UNCHANGED class
@@ -42,7 +45,7 @@ Ends(lst, r, n) == IF lst = <<>> \/ n = 0 THEN FALSE
                         ELSE IF h.typ = "ku" THEN Ends(Tail(lst), [r EXCEPT !.ep = @ + 1, !.seq = 0], n - 1)
                         ELSE IF h.typ = "app" /\ h.hi = 0 THEN Ends(Tail(lst), [r EXCEPT !.seq = @ + 1], n - 1)
                         ELSE TRUE
-ReadUseful(x, k) == ~st.wr[x].closed /\ (k = 0 \/ st.rd[x].buf > 0 \/ (st.rd[x].err = "none" /\ Ends(st.net[Peer(x)], st.rd[x], 8)))
+ReadUseful(x, k) == ~st.wr[x].closed /\ (k = 0 \/ st.rd[x].buf > 0 \/ (st.rd[x].err = "none" /\ Ends(st.net[Peer(x)], st.rd[x], 256)))
 
 Write(x, n) == /\ cnt.w < MaxW
                /\ \E r \in {DoWrite(st, x, n, Exact(ModelFrags(st.q, n)))} :
@@ -60,6 +63,25 @@ Mutate(x, i) == /\ cnt.mut < MaxMut /\ st.rd[Peer(x)].err = "none"
 Ks(x, n) == /\ cnt.ks < MaxKs /\ ~st.wr[x].dead /\ ~st.wr[x].closed
             /\ \E r \in {DoKeystream(st, x)} : Step(r, [op |-> "K", x |-> x, n |-> n], [cnt EXCEPT !.ks = @ + 1])
 
+\* Long runs of post-handshake messages without application data in between (conn.go retryCount /
+\* maxUselessRecords: only NON-advancing records may be counted against the limit, a KeyUpdate advances):
+\* k consecutive key updates of one side, and an upload during which only the receiver rekeys.
+RECURSIVE KUTimes(_, _, _, _)
+KUTimes(s, x, req, k) == IF k = 0 THEN s ELSE KUTimes(DoKeyUpdate(s, x, req).s, x, req, k - 1)
+RECURSIVE UploadTimes(_, _, _, _, _)
+UploadTimes(s, x, n, req, k) ==
+  IF k = 0 THEN s
+  ELSE UploadTimes(DoKeyUpdate(DoWrite(s, x, n, Exact(ModelFrags(s.q, n))).s, Peer(x), req).s, x, n, req, k - 1)
+Usable(x) == ~st.wr[x].dead /\ ~st.wr[x].closed
+Burst(x, req, k) == /\ cnt.b < MaxBurst /\ st.q.ku /\ Usable(x)
+                    /\ st' = KUTimes(st, x, req, k)
+                    /\ hist' = Append(hist, [op |-> "KUB", x |-> x, req |-> req, k |-> k])
+                    /\ cnt' = [cnt EXCEPT !.b = @ + 1] /\ UNCHANGED class
+Upload(x, n, req, k) == /\ cnt.b < MaxBurst /\ st.q.ku /\ Usable(x) /\ Usable(Peer(x))
+                        /\ st' = UploadTimes(st, x, n, req, k)
+                        /\ hist' = Append(hist, [op |-> "UPL", x |-> x, n |-> n, req |-> req, k |-> k])
+                        /\ cnt' = [cnt EXCEPT !.b = @ + 1] /\ UNCHANGED class
+
 \* the implementation's free choices only matter once an attacker or a Close is in play
 AlertChoices == IF cnt.mut > 0 THEN BOOLEAN ELSE {TRUE}
 PeekChoices == IF cnt.mut > 0 \/ cnt.cl > 0 THEN BOOLEAN ELSE {FALSE}
@@ -73,6 +95,8 @@ Next ==
      \/ \E x \in Sides : Close(x)
      \/ \E x \in Sides : \E i \in 1..(Len(st.net[x]) - st.dl[x]) : Mutate(x, i)
      \/ \E x \in KsSides, n \in KsSizes : Ks(x, n)
+     \/ \E x \in Sides, req \in BOOLEAN, k \in BurstSizes : Burst(x, req, k)
+     \/ \E x \in Sides, n \in UploadSizes, req \in BOOLEAN, k \in UploadRounds : Upload(x, n, req, k)
 
 Spec == Init /\ [][Next]_vars
 
